@@ -1,18 +1,22 @@
 """C11 — set commands implement exact set algebra.
 Model: lean/RedisGoModel/Exec/{Core,Set,Dispatch}.lean (+ Ds/SetOps.lean); theorems: Props/C11.lean;
 tie: exec engine (server.Manager.ExecCommand + VerifDump hook), SPOP/SRANDMEMBER in checker mode."""
-from .. import core, execgen_set, execsuite
+import random
+
+from .. import core, execgen_set, execsuite, families
 
 
 def run(R, ctx):
+    rng = random.Random(R.seed * 31 + 11)
     execsuite.run_exec_suite(
-        R, ctx, name="sets",
+        R, ctx, name="sets", extra_lines=families.refused_changes_nothing(rng, 300 if R.tier == "quick" else 5000),
         gens=[(1, execgen_set.set_cmd)],
         nprog=(500, 8000), corpus="exec_c11", keys=execgen_set.KEYS,
         what="set commands (SADD, SREM, SISMEMBER, SCARD, SMEMBERS, SMOVE, SPOP and SRANDMEMBER with and without count in checker mode, "
              "SUNION/SINTER/SDIFF and their STORE forms with 1-4 sources incl. repeated keys and destination among the sources) over existing, "
              "missing, wrong-typed (SET), long-TTL (EXPIRE k 1000) and already-expired (EXPIRE k -1) keys; members incl. the empty string, "
-             "CR/LF and binary bytes; count extremes (0, negative, +-2^63, non-numeric); arity damage")
+             "CR/LF and binary bytes; count extremes (0, negative, +-2^63, non-numeric); arity damage; "
+             "refused-command scenarios (a wrong-typed source behind good ones, destination among the sources, then a full dump: a refused command changes nothing)")
 
 
 def replay(R, payload):
